@@ -212,10 +212,12 @@ class WMirror:
                 self.chans[w["ch"]] = False
                 w["pc"], w["j"], w["acc"] = "c2", 0, []
                 self.step(i)
+            else:
+                w["parked"] = True
 
     def blocked(self, i):
         w = self.w[i]
-        return w["pc"] == "await" and not self.chans[w["ch"]]
+        return w["pc"] == "await" and w.get("parked", False) and not self.chans[w["ch"]]
 
 
 def rmask_w(r, c, want=None):
@@ -227,7 +229,10 @@ def rmask_w(r, c, want=None):
 
 
 def gen_wait(r, clean):
-    nc = r.choice([1, 1, 2, 2, 3])
+    # conditions 0..nwr-1 are DataWriters (their OfferedDeadlineMissed can change); the last
+    # three are a Topic, a Subscriber and a DataReader whose statuses never change
+    nwr = r.choice([1, 1, 2, 2, 3])
+    nc = nwr + 3
     nw = r.choice([1, 2, 2, 3])
     m = WMirror(nc, nw)
     ops = []
@@ -237,55 +242,73 @@ def gen_wait(r, clean):
         m.en[c] = set(ks)
     n = r.randint(8, 60)
     for _ in range(n):
-        c = r.randrange(nc)
-        i = r.randrange(nw)
-        x = r.random()
-        if x < 0.14:
+        idle = [i for i in range(nw) if m.w[i]["pc"] == "idle"]
+        blocked = [i for i in range(nw) if m.blocked(i)]
+        moving = [i for i in range(nw) if m.w[i]["pc"] != "idle" and not m.blocked(i)]
+        acts = [("add", 1.0), ("remove", 1.2), ("set", 2.0), ("get", 0.5), ("cancel", 0.25), ("anystep", 0.3)]
+        if idle:
+            acts.append(("start", 3.0))
+        if moving:
+            acts.append(("step", 6.0))
+        if blocked:
+            acts += [("wake", 2.5), ("repoll", 0.4), ("restart", 0.2)]
+        x = r.random() * sum(w for _, w in acts)
+        for a, w in acts:
+            x -= w
+            if x < 0:
+                break
+        c = r.randrange(nwr)
+        if a == "wake":
+            # change a status a blocked waiter is waiting for
+            cand = [k for i in blocked for k in m.w[i]["att"] if k < nwr]
+            if cand:
+                c = r.choice(cand)
+            a = "add"
+        if a == "add":
             ops.append(("a", c, ODM))
             m.add(c)
-        elif x < 0.22:
+        elif a == "remove":
             ops.append(("r", c, ODM))
             m.remove(c)
-        elif x < 0.32:
+        elif a == "set":
+            if r.random() < 0.2:
+                c = r.randrange(nc)
             ks = rmask_w(r, c)
             if clean and m.d6(c, ks):
                 ks = [k for k in ks if k != ODM]
             ops.append(("s", c, ks))
             m.en[c] = set(ks)
-        elif x < 0.35:
-            ops.append(("t", c))
-        elif x < 0.47:
-            if m.w[i]["pc"] in ("idle", "done") or r.random() < 0.15:
-                k = r.choice([0, 1, 1, 1, 2, 2, 3]) if nc > 1 else r.choice([0, 1, 1, 1, 2])
-                cs = [r.randrange(nc) for _ in range(k)]
-                ops.append(("w", i, cs))
-                m.start(i, cs)
-            else:
-                ops.append(("n", i))
-                m.step(i)
-        elif x < 0.97:
-            # prefer waiters that can move
-            cand = [j for j in range(nw) if m.w[j]["pc"] != "idle" and not m.blocked(j)]
-            if cand and r.random() < 0.8:
-                i = r.choice(cand)
+        elif a == "get":
+            ops.append((r.choice(["t", "t", "e"]), r.randrange(nc)))
+        elif a in ("start", "restart"):
+            i = r.choice(idle if a == "start" else blocked)
+            k = r.choice([0, 1, 1, 1, 2, 2, 3])
+            cs = [r.randrange(nwr) if r.random() < 0.75 else r.randrange(nc) for _ in range(k)]
+            ops.append(("w", i, cs))
+            m.start(i, cs)
+        elif a in ("step", "repoll", "anystep"):
+            i = r.choice(moving if a == "step" else blocked if a == "repoll" else list(range(nw)))
             ops.append(("n", i))
             m.step(i)
         else:
+            i = r.randrange(nw)
             ops.append(("c", i))
             m.cancel(i)
     # let every call run to its end: a waiter left blocked must have nothing to report
     if r.random() < 0.85:
         for i in range(nw):
-            for _ in range(2 * len(m.w[i]["att"]) + 3):
-                ops.append(("n", i))
-                m.step(i)
+            if m.w[i]["pc"] != "idle":
+                for _ in range(2 * len(m.w[i]["att"]) + 3):
+                    ops.append(("n", i))
+                    m.step(i)
     return ("W", nc, nw, ops)
 
 
 def gen_d6_wait(r):
     """waiter parked, then the status that already changed gets enabled"""
-    nc, nw = r.choice([1, 2]), r.choice([1, 2])
-    c, i = r.randrange(nc), r.randrange(nw)
+    nwr, nw = r.choice([1, 2]), r.choice([1, 2])
+    nc = nwr + 3
+    c, i = r.randrange(nwr), r.randrange(nw)
     ops = [("s", x, rmask_w(r, x, want=(x != c))) for x in range(nc)]
     ops.append(("a", c, ODM))
     cs = [c] if r.random() < 0.6 else [r.randrange(nc), c]
@@ -304,7 +327,7 @@ def gen_d6_wait(r):
 
 
 def gen(r, tier):
-    n = {"quick": 3000, "search": 12000, "thorough": 60000}[tier]
+    n = {"quick": 2000, "search": 8000, "thorough": 40000}[tier]
     cases = []
     while len(cases) < n:
         x = r.random()
@@ -336,15 +359,18 @@ def corpus():
         ("D", 2, 1, [("g", 0, 0), ("g", 0, 0), ("g", 1, 0), ("p", 0), ("a", 0, 8), ("p", 0), ("p", 0),
                      ("a", 1, 8), ("p", 0)]),
         # real wait(): check, register, park, status changes -> woken, collect, result [c0]
-        ("W", 1, 1, [("s", 0, [9, 1]), ("w", 0, [0]), ("n", 0), ("n", 0), ("n", 0), ("a", 0, 1), ("n", 0), ("n", 0),
+        ("W", 4, 1, [("s", 0, [9, 1]), ("w", 0, [0]), ("n", 0), ("n", 0), ("n", 0), ("a", 0, 1), ("n", 0), ("n", 0),
                      ("n", 0)]),
         # D6 on the real wait(): parked, then the changed status is enabled: not woken, does not return
-        ("W", 1, 1, [("s", 0, [9]), ("a", 0, 1), ("w", 0, [0]), ("n", 0), ("n", 0), ("n", 0), ("s", 0, [9, 1]),
+        ("W", 4, 1, [("s", 0, [9]), ("a", 0, 1), ("w", 0, [0]), ("n", 0), ("n", 0), ("n", 0), ("s", 0, [9, 1]),
                      ("t", 0), ("n", 0), ("n", 0), ("a", 0, 1), ("n", 0), ("n", 0)]),
         # two conditions, both true at the end -> result [c0; c1]; empty wait set -> PreconditionNotMet
-        ("W", 2, 2, [("s", 0, [9, 1]), ("s", 1, [10, 1]), ("w", 0, [0, 1]), ("w", 1, []), ("n", 1), ("n", 0),
+        ("W", 5, 2, [("s", 0, [9, 1]), ("s", 1, [10, 1]), ("w", 0, [0, 1]), ("w", 1, []), ("n", 1), ("n", 0),
                      ("n", 0), ("n", 0), ("n", 0), ("n", 0), ("a", 1, 1), ("a", 0, 1), ("n", 0), ("n", 0), ("n", 0),
                      ("n", 0), ("r", 0, 1), ("t", 0), ("w", 1, [1, 0]), ("n", 1), ("n", 1), ("n", 1)]),
+        # a wait set over a DataWriter, a Topic, a Subscriber and a DataReader condition
+        ("W", 4, 1, [("s", 0, [9, 1]), ("s", 1, [10]), ("s", 2, [9, 10, 3]), ("s", 3, [11, 1]), ("e", 0), ("e", 1),
+                     ("e", 2), ("e", 3), ("w", 0, [0, 1, 2, 3])] + [("n", 0)] * 9 + [("a", 0, 1)] + [("n", 0)] * 5),
     ]
 
 
@@ -413,6 +439,8 @@ def wop_term(o):
         return "HSet %s %s" % (nat(o[1]), kinds(o[2]))
     if t == "t":
         return "HGet %s" % nat(o[1])
+    if t == "e":
+        return "HGetEn %s" % nat(o[1])
     if t == "w":
         return "HStart %s [%s]" % (nat(o[1]), "; ".join(nat(x) for x in o[2]))
     if t == "n":
@@ -461,10 +489,34 @@ def distribution(cases, outs):
 
 
 MANIFEST = {
-    "text": ("Machine-checked proof (Coq) over a model of DcpsStatusCondition, the notification channel and the "
-             "await points of WaitSetAsync::wait, where one step is one mail handled by the DCPS worker or one "
-             "receiver poll, so that a list of steps is an interleaving of status changes, set_enabled_statuses "
-             "calls and any number of concurrent wait calls."),
-    "note": "see evidence",
+    "text": ("Machine-checked proof (Coq) over a model of StatusMask, DcpsStatusCondition, the notification channel and "
+             "WaitSetAsync::wait in which one step is one mail handled by the DCPS worker or one poll of the notification "
+             "receiver, so that a list of steps is an interleaving of status changes, status reads, set_enabled_statuses "
+             "calls and any number of concurrent wait calls (with cancellation = timeout). Proved for ALL step lists: the "
+             "trigger value equals 'a status enabled by the last set_enabled_statuses has changed since it was last read' "
+             "(also for the u16 mask representation). Proved for all step lists outside one recorded class: a condition "
+             "with a registered notification has trigger value false; no waiter sleeps while one of its conditions is "
+             "true; a parked waiter is notified and its waker called exactly once at the very step that makes a condition "
+             "true; wait returns exactly the attached conditions that are true, at once when one is true at the call and "
+             "within 1+n own steps once one became true; a running call left alone always reaches its return or the "
+             "parked state with all conditions false; it never returns AlreadyDeleted. The recorded class (known finding "
+             "C32-enable-no-notify): set_enabled_statuses that enables an already changed status while a waiter is "
+             "registered does not notify it, the waiter sleeps for ever with a true condition (witness theorem; confirmed "
+             "on the real DcpsStatusCondition and on the real WaitSetAsync::wait future); the same theorems hold for "
+             "all step lists of the patched code (proposed_fixes/C32-enable-no-notify.diff, model switch fx). The model "
+             "is tied to the code by running (a) the real DcpsStatusCondition with real notification channels and "
+             "counting wakers and (b) the real async API: real WaitSetAsync::wait futures, StatusConditionAsync calls "
+             "and the real DCPS worker loop, polled by hand on a hand-made runtime, with DataWriter deadline misses as "
+             "status changes and Topic/Subscriber/DataReader conditions attached as well; every observation (trigger "
+             "value of every condition after every op, wake-ups, poll results, returned condition lists) is compared "
+             "with the model inside Coq, and an oracle that only knows the abstract sets enabled/changed and who waits on "
+             "what is applied to the implementation's observations."),
+    "note": ("Trusted: Coq kernel + vm_compute; hand model StatusCondModel.v (checked against the code by the "
+             "correspondence run on every check); harness (hand-made runtime, null transport, standing clock) and "
+             "comparator. Axioms: none. Atomicity of a mail / of a receiver poll is an assumption of the model (single "
+             "worker task, critical_section). Not covered: real threads and real timeouts of the sync WaitSet::wait "
+             "(block_timeout is modelled as dropping the future at an arbitrary step), deletion of an entity while it is "
+             "waited on, the mpsc mail channel itself (C34), status kinds other than OfferedDeadlineMissed at the "
+             "wait-set level (all 13 kinds at the DcpsStatusCondition level)."),
     "technique": "Coq proof (invariants over all step lists) + differential correspondence with oracle evaluated in Coq",
 }
